@@ -330,6 +330,11 @@ class ArgumentParser(ParserDeprecations, ActionsContainer, ArgumentLinking, argp
             value = namespace.get(action.dest) if isinstance(namespace, Namespace) else getattr(namespace, action.dest, None)
             if value is not None:
                 return value
+        if action.option_strings and arg_strings == ["--"] and action.nargs in {None, "?"}:
+            # --option=-- : argparse of several python versions strips a "--" also when it is the value of an option
+            value = self._get_value(action, "--")
+            self._check_value(action, value)
+            return value
         return super()._get_values(action, arg_strings)
 
     def _positional_optionals(self, cfg, unk):
